@@ -229,6 +229,7 @@ def exercise_nlri(ctx: Ctx, x, src: str, text: str | None = None, laws_only=None
             ctx.law(v, wit)
             if sub:
                 ctx.ok(sub, 'L1')
+            l5_only_nlri(ctx, x, label, neg, wit)
             continue
         except Exception as e:  # noqa
             ctx.bad(f'C15/raises:{label}:{type(e).__name__}', f'pack_nlri raises {type(e).__name__}: {str(e)[:160]}', wit, label, 'L1')
@@ -269,6 +270,31 @@ def exercise_nlri(ctx: Ctx, x, src: str, text: str | None = None, laws_only=None
             check_l5(ctx, label, lambda: laws.decode_one_nlri(afi, safi, b, send, neg)[0], wit, case_id(label, int(send), b))
             if sub:
                 ctx.ok(sub, 'L5')
+
+
+def l5_only_nlri(ctx: Ctx, x, label: str, neg, wit: dict) -> None:
+    """L1 failed: the renderings of the bytes ExaBGP produced are still held to L5"""
+    afi, safi = fam_of(x)
+    try:
+        b = bytes(x.pack_nlri(neg))
+    except Exception:  # noqa
+        return
+    send = bool(neg.addpath.send(afi, safi))
+    key = (label, send, b)
+    if key not in ctx.seen:
+        ctx.seen.add(key)
+        check_l5(ctx, label, lambda: laws.decode_one_nlri(afi, safi, b, send, neg)[0], dict(wit, bytes=hx(b)), case_id(label, int(send), b))
+
+
+def l5_only_attr(ctx: Ctx, a, label: str, code: int, sname: str, neg, wit: dict) -> None:
+    try:
+        b = bytes(a.pack_attribute(neg))
+    except Exception:  # noqa
+        return
+    key = (label, sname, b)
+    if b and key not in ctx.seen:
+        ctx.seen.add(key)
+        check_l5(ctx, label, lambda: decode_attr_bytes(b, code, neg), dict(wit, bytes=hx(b)), case_id(label, sname, b))
 
 
 def check_eq_pair(ctx: Ctx, a, b, label: str, wit: dict) -> bool | None:
@@ -1029,6 +1055,10 @@ def exercise_attr(ctx: Ctx, a, src: str, text: str | None = None) -> None:
 
         ctx.res.count('generic-attribute-partial-bit-normalised')
         a = GenericAttribute.make_generic(code, int(a.FLAG) | 0x20, bytes(a._packed))
+    if label == 'attr:generic' and len(bytes(a._packed)) > 255 and not int(a.FLAG) & 0x10:
+        from exabgp.bgp.message.update.attribute.generic import GenericAttribute
+
+        a = GenericAttribute.make_generic(code, int(a.FLAG) | 0x10, bytes(a._packed))  # the length form is part of the flag
     for sname, neg in attr_sessions(ctx, code):
         wit = {'class': label, 'type': type(a).__name__, 'source': src, 'session': sname, 'object': laws.safe_repr(a)}
         if text:
@@ -1039,6 +1069,7 @@ def exercise_attr(ctx: Ctx, a, src: str, text: str | None = None) -> None:
                 b = bytes(a.pack_attribute(neg))
         except LawViolation as v:
             ctx.law(v, wit)
+            l5_only_attr(ctx, a, label, code, sname, neg, wit)
             continue
         except NotImplementedError:
             ctx.res.count('pack_attribute-not-implemented:' + label)
@@ -1233,6 +1264,25 @@ def run_attr_factories(ctx: Ctx) -> None:
         if a is not None:
             exercise_attr(ctx, a, 'factory:' + name)
     run_attr_text(ctx, ATTR_TEXT)
+    # crafted-but-well-formed bytes for entries neither the grammar nor a factory reaches
+    crafted = [
+        (23, 0xC0, bytes.fromhex('000f000c0c060000000000646402aabb'), 'tunnel-encap sr-policy with preference and an unassigned sub-TLV (type 100)'),
+        (23, 0xC0, bytes.fromhex('000f00080c06000000000064'), 'tunnel-encap sr-policy with preference'),
+        (23, 0xC0, bytes.fromhex('00630004deadbeef'), 'tunnel-encap with an unassigned tunnel type (99)'),
+        (40, 0xC0, bytes.fromhex('630002aabb'), 'prefix-sid with an unassigned TLV (99)'),
+        (26, 0x80, bytes.fromhex('010b0000000000000064'), 'aigp'),
+        (26, 0x80, bytes.fromhex('020003010b0000000000000064'), 'aigp preceded by an unknown TLV'),
+    ]
+    for code, flag, value, what in crafted:
+        try:
+            a = laws.decode_attr_tlv(flag, code, value, ctx.sessions['plain'])
+        except Exception as e:  # noqa
+            ctx.res.count(f'crafted-not-decodable:{code}:{type(e).__name__}')
+            continue
+        if type(a).__name__ in ('Discard', 'TreatAsWithdraw'):
+            ctx.res.count(f'crafted-discarded:{code}')
+            continue
+        exercise_attr(ctx, a, 'crafted', f'{what}: flag {flag:02x} value {value.hex()}')
     # objects built by different paths: equal ones are held to L3 by the contract on ==
     from exabgp.bgp.message.open.asn import ASN
     from exabgp.bgp.message.update.attribute.aspath import ASPath, SEQUENCE
@@ -1486,6 +1536,12 @@ def run_corpus_attrs(ctx: Ctx, part: int, parts: int) -> None:
             mv = mutate(ctx.r, value)
             if mv != value:
                 variants.append((f'mutated:{src}', mv))
+        if code in (22, 23, 26, 29, 40):
+            # structured (TLV in TLV) attributes: every single length/type byte off by one, deterministically
+            for i in range(min(len(value), 48)):
+                for d in (-1, 1):
+                    mv = value[:i] + bytes([(value[i] + d) & 0xFF]) + value[i + 1 :]
+                    variants.append((f'mutated:{src}', mv))
         for vsrc, v in variants:
             done = False
             for sname in ('plain', 'asn2'):
